@@ -685,3 +685,30 @@ MUTANTS += [
 #define BINSON_ADVANCE_VALUE                (0x01U)''')],
      'expect': {'C02': None, 'C06': None, 'C07': None, 'C08': None, 'C11': None, 'C14': None, 'C16': None, 'C01': None, 'C03': None}},
 ]
+
+MUTANTS += [
+    # the writer's width choice rewritten with the (correct) unsigned-bias idiom and the packing loop counting down
+    {'name': 'silent_int_pack_bias_idiom', 'edits': [(W, '''        if ((length >= INT8_MIN) && (length <= INT8_MAX)) {
+            size = sizeof(int8_t);
+        }
+        else if ((length >= INT16_MIN) && (length <= INT16_MAX)) {
+            buffer[0] += 1;
+            size = sizeof(int16_t);
+        }
+        else if ((length >= INT32_MIN) && (length <= INT32_MAX)) {
+            buffer[0] += 2;
+            size = sizeof(int32_t);
+        }''', '''        uint64_t biased = (uint64_t) length;
+        if ((biased + 0x80U) < 0x100U) {
+            size = sizeof(int8_t);
+        }
+        else if ((biased + 0x8000U) < 0x10000U) {
+            buffer[0] += 1;
+            size = sizeof(int16_t);
+        }
+        else if ((biased + 0x80000000U) <= 0xFFFFFFFFU) {
+            buffer[0] += 2;
+            size = sizeof(int32_t);
+        }''')],
+     'expect': {'C05': None, 'C10': None, 'C04': None, 'C18': None}},
+]
